@@ -100,6 +100,8 @@ type host struct {
 	// holdPending: the <<hold>> command returns a channel that is never completed (else it completes at once)
 	holdPending bool
 	held        []chan error
+	// onElement, when set, sees every element right after Next returned it (hosts that annotate what they receive)
+	onElement func(el *ysgo.DialogueElement)
 }
 
 func readers(srcs []string) []io.Reader {
@@ -207,6 +209,9 @@ func (h *host) step(arg int) Ev {
 	}()
 	var ev Ev
 	h.lastOpt = 0
+	if el != nil && h.onElement != nil && panicked == nil {
+		h.onElement(el)
+	}
 	switch {
 	case panicked != nil:
 		ev = Ev{K: "panic", Text: fmt.Sprint(panicked)}
